@@ -479,7 +479,7 @@ func (en *Engine) readFull(st *State, f *Frame, x *ssa.Call, args []Value, pos s
 	errSt := st.clone()
 	// success: buffer filled
 	if buf.R != nil {
-		en.noteWrite(st, PtrV{R: buf.R, Path: buf.Path}, pos)
+		en.checkWrite(st, buf.R, buf.Path, buf.Off, buf.Len, pos)
 		en.havocSlice(st, buf)
 	}
 	f.env[x] = TupleV{en.sliceLen(buf), IfaceV{}}
